@@ -263,3 +263,464 @@ Proof.
     peel H. injection H as <-. ranges. cbn [wf_opt]. repeat split; try assumption.
     destruct (N.odd _); [assumption | exact I].
 Qed.
+
+(** * Re-encoding the canonical form gives the same bytes *)
+Definition stable (o : opt6) : Prop := enc_val (canon o) = enc_val o.
+
+Lemma opt_code_canon o : opt_code (canon o) = opt_code o.
+Proof. destruct o; reflexivity. Qed.
+
+Lemma stable_list os : Forall stable os ->
+  flat_map (fun x => tlv (opt_code x) (enc_val x)) (map canon os) = flat_map (fun x => tlv (opt_code x) (enc_val x)) os.
+Proof.
+  induction 1 as [|x r Hx F IH]; [reflexivity|]. cbn [map flat_map]. rewrite opt_code_canon, Hx, IH. reflexivity.
+Qed.
+
+Lemma canon4_enc data p : dec4 data = Ok p -> enc4_bytes (canon4 p) = enc4_bytes p.
+Proof.
+  intros H. destruct (fixpoint4 data p H) as (b1 & m2 & E & D & _ & E2).
+  unfold canon4, enc4_bytes. rewrite E, D, E2. reflexivity.
+Qed.
+
+Lemma canon_ntpsub_enc c d s : dec_ntpsub c d = Ok s -> enc_ntpsub (canon_ntpsub s) = enc_ntpsub s.
+Proof.
+  intros H. destruct s as [a|a|l|c' d']; try reflexivity. cbn [canon_ntpsub enc_ntpsub].
+  assert (W : wf_labels l).
+  { unfold dec_ntpsub in H. destruct c as [|[[|[]|]|[|[]|]|]]; try discriminate.
+    - destruct (dec_labels d) as [l'| | |] eqn:E; cbn [bind] in H; try discriminate. injection H as <-.
+      eapply dec_labels_wf; eauto.
+    - destruct (rd_n 16 d) as [[a r]| | |]; cbn [bind] in H; try discriminate.
+      destruct (fin_empty r); cbn [bind] in H; discriminate.
+    - destruct (rd_n 16 d) as [[a r]| | |]; cbn [bind] in H; try discriminate.
+      destruct (fin_empty r); cbn [bind] in H; discriminate. }
+  rewrite canon_labels_bytes by exact W. reflexivity.
+Qed.
+
+Theorem dec_opt_stable : forall f code data o, dec_opt f code data = Ok o -> stable o.
+Proof.
+  induction f as [|f IH]; intros code data o H; [discriminate|]. cbn [dec_opt] in H.
+  assert (OPTS : forall r os, dec_tlvs (dec_opt f) r = Ok os -> Forall stable os).
+  { intros r os Hr. unfold dec_tlvs in Hr. eapply tlv_loop_forall; [|exact Hr]. intros c d v Hv. exact (IH c d v Hv). }
+  unfold stable.
+  destruct (classify code) eqn:K.
+  all: try (peel H; injection H as <-; reflexivity).
+  all: try (peel H; injection H as <-;
+            match goal with E : dec_tlvs _ _ = Ok ?os |- _ =>
+              pose proof (stable_list os (OPTS _ _ E)) as SL;
+              destruct (enc_val_nested os) as (T1 & T2 & T3 & T4 & T5 & T6 & T7 & T8);
+              destruct (enc_val_nested (map canon os)) as (U1 & U2 & U3 & U4 & U5 & U6 & U7 & U8);
+              cbn [canon]; rewrite ?T1, ?T2, ?T3, ?T6, ?T7, ?T8, ?U1, ?U2, ?U3, ?U6, ?U7, ?U8; cbv zeta; rewrite SL; reflexivity
+            end).
+  - (* relay message *)
+    destruct (dec_msg_with _ data) as [m| | |] eqn:E; cbn [bind] in H; try discriminate.
+    injection H as <-. unfold dec_msg_with in E.
+    peel E; injection E as <-;
+      match goal with E' : dec_tlvs _ _ = Ok ?os |- _ =>
+        pose proof (stable_list os (OPTS _ _ E')) as SL;
+        destruct (enc_val_nested os) as (T1 & T2 & T3 & T4 & T5 & T6 & T7 & T8);
+        destruct (enc_val_nested (map canon os)) as (U1 & U2 & U3 & U4 & U5 & U6 & U7 & U8);
+        cbn [canon]; rewrite ?T4, ?T5, ?U4, ?U5; cbv zeta; rewrite SL; reflexivity
+      end.
+  - (* domain list *)
+    peel H. injection H as <-. cbn [canon enc_val]. apply canon_labels_bytes. eapply dec_labels_wf; eauto.
+  - (* FQDN *)
+    peel H. injection H as <-. cbn [canon enc_val]. rewrite canon_labels_bytes; [reflexivity | eapply dec_labels_wf; eauto].
+  - (* NTP *)
+    peel H. injection H as <-. cbn [canon enc_val].
+    match goal with E : dec_tlvs _ _ = Ok ?subs |- _ =>
+      assert (F : Forall (fun s => enc_ntpsub (canon_ntpsub s) = enc_ntpsub s) subs)
+        by (unfold dec_tlvs in E; eapply tlv_loop_forall; [|exact E]; intros c d v Hv; exact (canon_ntpsub_enc c d v Hv));
+      clear E; induction F as [|s r Hs F IHF]; [reflexivity | cbn [map flat_map]; rewrite Hs, IHF; reflexivity]
+    end.
+  - (* DHCPv4 message *)
+    peel H. injection H as <-. cbn [canon enc_val]. eapply canon4_enc; eauto.
+Qed.
+
+(** * Messages *)
+Lemma dec_msg_wf b m : dec_msg b = Ok m -> shorts_msg m -> wf_msg m.
+Proof.
+  unfold dec_msg, dec_msg_with, dec_opts. intros H S.
+  assert (OPTS : forall r os, dec_tlvs (dec_opt (Datatypes.S (length b))) r = Ok os -> shorts_list os -> wf_opts os).
+  { intros r os Hr. apply shorts_list_wf. unfold dec_tlvs in Hr.
+    eapply tlv_loop_forall16; [|exact Hr]. intros c d v Hc _ Hv Sv. exact (dec_opt_wf _ c d v Hv Hc Sv). }
+  peel H; injection H as <-; cbn [wf_msg shorts_msg] in *;
+    match goal with E : dec_tlvs _ _ = Ok ?os |- _ => pose proof (OPTS _ _ E S) end; ranges; repeat split; assumption.
+Qed.
+
+Lemma dec_msg_stable b m : dec_msg b = Ok m -> enc_msg (canon_msg m) = enc_msg m.
+Proof.
+  unfold dec_msg, dec_msg_with, dec_opts. intros H.
+  assert (OPTS : forall r os, dec_tlvs (dec_opt (Datatypes.S (length b))) r = Ok os -> Forall stable os).
+  { intros r os Hr. unfold dec_tlvs in Hr. eapply tlv_loop_forall; [|exact Hr].
+    intros c d v Hv. exact (dec_opt_stable _ c d v Hv). }
+  peel H; injection H as <-; cbn [canon_msg enc_msg]; unfold enc_opts, enc_opt;
+    match goal with E : dec_tlvs _ _ = Ok ?os |- _ => rewrite (stable_list os (OPTS _ _ E)) end; reflexivity.
+Qed.
+
+(** C06 for DHCPv6: every accepted byte string whose decoded value re-encodes
+    within the 16-bit length fields settles after one trip: the re-encoding
+    [b1] decodes to [m2 = canon_msg m], and [m2] encodes to [b1] again. *)
+Theorem fixpoint6 b m : dec_msg b = Ok m -> shorts_msg m ->
+  exists m2, dec_msg (enc_msg m) = Ok m2 /\ enc_msg m2 = enc_msg m /\ m2 = canon_msg m.
+Proof.
+  intros H S. exists (canon_msg m).
+  split; [apply dec_msg_enc; eapply dec_msg_wf; eauto | split; [eapply dec_msg_stable; eauto | reflexivity]].
+Qed.
+
+(** the same for a single option through ParseOption *)
+Theorem fixpoint6_option code data o : parse_option code data = Ok o -> u16 code -> shorts o ->
+  parse_option (opt_code o) (enc_val o) = Ok (canon o) /\ enc_val (canon o) = enc_val o.
+Proof.
+  unfold parse_option at 1. intros H Hc S.
+  split; [apply parse_option_enc; eapply dec_opt_wf; eauto | eapply dec_opt_stable; eauto].
+Qed.
+
+(** * Re-encoding never grows, except for embedded DHCPv4 messages (padded to 300 octets) *)
+Fixpoint no_v4 (o : opt6) : Prop :=
+  let all := fix all (l : list opt6) : Prop := match l with [] => True | x :: r => no_v4 x /\ all r end in
+  match o with
+  | ODHCPv4 _ => False
+  | OIANA _ _ _ os | OIATA _ os | OIAAddr _ _ _ os | ORelayMsgM _ _ os | ORelayMsgR _ _ _ _ os
+  | OIAPD _ _ _ os | OIAPrefix _ _ _ os | O4RD os => all os
+  | _ => True
+  end.
+Fixpoint no_v4_list (l : list opt6) : Prop := match l with [] => True | x :: r => no_v4 x /\ no_v4_list r end.
+Definition no_v4_msg (m : msg6) : Prop := match m with Msg _ _ os | Relay _ _ _ _ os => no_v4_list os end.
+
+Lemma no_v4_nested os :
+  (forall i t1 t2, no_v4 (OIANA i t1 t2 os) = no_v4_list os) /\
+  (forall i, no_v4 (OIATA i os) = no_v4_list os) /\
+  (forall a p v, no_v4 (OIAAddr a p v os) = no_v4_list os) /\
+  (forall t x, no_v4 (ORelayMsgM t x os) = no_v4_list os) /\
+  (forall t h l p, no_v4 (ORelayMsgR t h l p os) = no_v4_list os) /\
+  (forall i t1 t2, no_v4 (OIAPD i t1 t2 os) = no_v4_list os) /\
+  (forall p v pre, no_v4 (OIAPrefix p v pre os) = no_v4_list os) /\
+  no_v4 (O4RD os) = no_v4_list os.
+Proof. repeat split. Qed.
+
+Lemma many_u16_length : forall b cs, many_u16 b = Ok cs -> length b = 2 * length cs.
+Proof.
+  fix IH 1. intros [|x [|y r]] cs; cbn [many_u16]; try discriminate.
+  - intros [= <-]. reflexivity.
+  - destruct (many_u16 r) as [xs| | |] eqn:E; cbn [bind]; try discriminate.
+    intros [= <-]. cbn [length]. rewrite (IH r xs E). lia.
+Qed.
+
+Lemma flat_be16_length cs : length (flat_map be16 cs) = 2 * length cs.
+Proof. induction cs as [|c r IH]; [reflexivity|]. cbn [flat_map length app be16]. rewrite IH. lia. Qed.
+
+Lemma dedup_add_length : forall cs acc, length (dedup_add acc cs) <= length acc + length cs.
+Proof.
+  induction cs as [|c cs IH]; intros acc; cbn [dedup_add length]; [lia|].
+  destruct (existsb _ acc); [specialize (IH acc); lia|].
+  specialize (IH (acc ++ [c])). rewrite app_length in IH. cbn [length] in IH. lia.
+Qed.
+
+Lemma many_len16_length : forall f b xs, many_len16 f b = Ok xs ->
+  length (flat_map (fun c => len16 c ++ c) xs) = length b.
+Proof.
+  induction f as [|f IH]; intros b xs; cbn [many_len16]; [discriminate|].
+  destruct b as [|h [|l r]]; try discriminate.
+  - intros [= <-]. reflexivity.
+  - destruct (rd_n _ r) as [[x r']| | |] eqn:E; cbn [bind]; try discriminate.
+    destruct (many_len16 f r') as [ys| | |] eqn:E2; cbn [bind]; try discriminate.
+    intros [= <-]. cbn [flat_map]. rewrite !app_length. unfold len16 at 1. rewrite be16_length.
+    rewrite (IH _ _ E2). apply rd_n_len in E. cbn [length]. lia.
+Qed.
+
+Lemma many_ip16_length : forall f b xs, many_ip16 f b = Ok xs ->
+  length (flat_map ip16_or_nothing xs) = length b.
+Proof.
+  induction f as [|f IH]; intros b xs; cbn [many_ip16]; [discriminate|].
+  destruct b as [|h r]; [intros [= <-]; reflexivity|].
+  destruct (rd_n 16 (h :: r)) as [[x r']| | |] eqn:E; cbn [bind]; try discriminate.
+  destruct (many_ip16 f r') as [ys| | |] eqn:E2; cbn [bind]; try discriminate.
+  intros [= <-]. cbn [flat_map]. rewrite app_length, (IH _ _ E2).
+  apply rd_n_len in E. destruct E as (L & Lx & _). rewrite ip16_or_nothing_16 by exact Lx. lia.
+Qed.
+
+(** the TLV loop: if every value re-encodes no longer than it was, so does the sequence *)
+Lemma tlv_loop_lengths {A} (parse : N -> bytes -> res A) (code : A -> N) (enc : A -> bytes) (P Q : A -> Prop) :
+  (forall c d v, u16 c -> short d -> parse c d = Ok v -> P v -> length (enc v) <= length d /\ Q v) ->
+  forall f b vals, tlv_loop parse f b = Ok vals -> Forall P vals ->
+    length (flat_map (fun x => tlv (code x) (enc x)) vals) <= length b /\ Forall Q vals.
+Proof.
+  intros HP. induction f as [|f IH]; intros b vals; cbn [tlv_loop]; [discriminate|].
+  destruct b as [|c1 [|c2 [|l1 [|l2 r]]]]; try discriminate.
+  - intros [= <-] _. split; [cbn; lia | constructor].
+  - destruct (rd_n _ r) as [[v r']| | |] eqn:E0; cbn [bind]; try discriminate.
+    destruct (parse (rd16 c1 c2) v) as [o| | |] eqn:E; cbn [bind]; try discriminate.
+    destruct (tlv_loop parse f r') as [os| | |] eqn:L; cbn [bind]; try discriminate.
+    intros [= <-] F. inversion F as [|? ? Po Fo]; subst.
+    destruct (IH _ _ L Fo) as [IL IQ].
+    pose proof (rd_n_len _ _ _ _ E0) as (Lr & Lv & _).
+    assert (Sv : short v) by (unfold short; rewrite Lv, N2Nat.id; apply rd16_lt).
+    destruct (HP _ _ _ (rd16_lt c1 c2) Sv E Po) as [Lo Qo].
+    split; [|constructor; assumption].
+    cbn [flat_map]. rewrite app_length, tlv_length. cbn [length]. lia.
+Qed.
+
+Lemma no_v4_list_Forall os : no_v4_list os -> Forall no_v4 os.
+Proof. induction os as [|x r IH]; cbn [no_v4_list]; [constructor|]. intros [A B]. constructor; auto. Qed.
+Lemma shorts_list_Forall os : Forall shorts os -> shorts_list os.
+Proof. induction 1; cbn [shorts_list]; auto. Qed.
+
+Ltac lens :=
+  repeat match goal with
+  | E : rd_u8 _ = Ok (_, _) |- _ => apply rd_u8_len in E
+  | E : rd_u16 _ = Ok (_, _) |- _ => apply rd_u16_len in E
+  | E : rd_u32 _ = Ok (_, _) |- _ => apply rd_u32_len in E
+  | E : rd_n _ _ = Ok (_, _) |- _ => apply rd_n_len in E; destruct E as (? & ? & _)
+  | E : fin_empty ?r = Ok _ |- _ => destruct r; [clear E | discriminate E]
+  end.
+
+Lemma short_le (a b : bytes) : length a <= length b -> short b -> short a.
+Proof. unfold short. lia. Qed.
+
+Lemma ip16_length a : length (ip16 a) = 16.
+Proof.
+  unfold ip16, to16. destruct (length a =? 16) eqn:E; [apply Nat.eqb_eq in E; exact E|].
+  destruct (length a =? 4) eqn:E4; [apply Nat.eqb_eq in E4; rewrite app_length, E4; reflexivity | apply zeros_length].
+Qed.
+
+Ltac len_simpl :=
+  cbn [enc_val enc_duid length app be16 be32];
+  rewrite ?app_length, ?ip16_length, ?zeros_length, ?flat_be16_length;
+  rewrite ?copy_into_length by lia;
+  cbn [length be16 be32].
+
+Lemma dec_duid_length data d : dec_duid data = Ok d -> length (enc_duid d) <= length data.
+Proof.
+  unfold dec_duid. destruct (rd_u16 data) as [[typ r]| | |] eqn:E; cbn [bind]; try discriminate.
+  apply rd_u16_len in E.
+  destruct (N.eq_dec typ 1) as [->|N1].
+  { destruct (rd_u16 r) as [[hw r']| | |] eqn:E1; cbn [bind]; try discriminate.
+    destruct (rd_u32 r') as [[t r'']| | |] eqn:E2; cbn [bind]; try discriminate.
+    intros [= <-]. apply rd_u16_len in E1. apply rd_u32_len in E2. cbn [enc_duid be16 be32 app length]. lia. }
+  destruct (N.eq_dec typ 2) as [->|N2].
+  { destruct (rd_u32 r) as [[en r']| | |] eqn:E1; cbn [bind]; try discriminate.
+    intros [= <-]. apply rd_u32_len in E1. cbn [enc_duid be16 be32 app length]. lia. }
+  destruct (N.eq_dec typ 3) as [->|N3].
+  { destruct (rd_u16 r) as [[hw r']| | |] eqn:E1; cbn [bind]; try discriminate.
+    intros [= <-]. apply rd_u16_len in E1. cbn [enc_duid be16 be32 app length]. lia. }
+  destruct (N.eq_dec typ 4) as [->|N4].
+  { destruct (length r =? 16) eqn:L; try discriminate. intros [= <-]. apply Nat.eqb_eq in L.
+    cbn [enc_duid be16 app length]. rewrite copy_into_length by lia. lia. }
+  assert (D : match typ with
+              | 1 => let* (hw, r0) := rd_u16 r in let* (t, r1) := rd_u32 r0 in Ok (DLLT hw t r1)
+              | 2 => let* (en, r0) := rd_u32 r in Ok (DEN en r0)
+              | 3 => let* (hw, r0) := rd_u16 r in Ok (DLL hw r0)
+              | 4 => if (length r =? 16)%nat then Ok (DUUID r) else Err
+              | _ => Ok (DOpaque typ r)
+              end%N = Ok (DOpaque typ r)).
+  { destruct typ as [|[[[|[]|]|[[]|[]|]|]|[[|[]|]|[]|]|]]; try reflexivity; congruence. }
+  rewrite D. intros [= <-]. cbn [enc_duid be16 app length]. lia.
+Qed.
+
+Lemma dec_ntpsub_length c d s : u16 c -> short d -> dec_ntpsub c d = Ok s -> enc_ntpsub s = tlv (ntp_code s) (ntp_val s) /\ length (ntp_val s) <= length d.
+Proof.
+  intros Hc Hd H. split; [apply enc_ntpsub_tlv|]. unfold dec_ntpsub in H.
+  destruct (N.eq_dec c 1) as [->|N1].
+  { destruct (rd_n 16 d) as [[a r]| | |] eqn:E; cbn [bind] in H; try discriminate.
+    destruct (fin_empty r); cbn [bind] in H; try discriminate. injection H as <-.
+    apply rd_n_len in E. destruct E as (L & La & _). cbn [ntp_val]. rewrite ip16_or_nothing_16 by exact La. lia. }
+  destruct (N.eq_dec c 2) as [->|N2].
+  { destruct (rd_n 16 d) as [[a r]| | |] eqn:E; cbn [bind] in H; try discriminate.
+    destruct (fin_empty r); cbn [bind] in H; try discriminate. injection H as <-.
+    apply rd_n_len in E. destruct E as (L & La & _). cbn [ntp_val]. rewrite ip16_or_nothing_16 by exact La. lia. }
+  destruct (N.eq_dec c 3) as [->|N3].
+  { destruct (dec_labels d) as [l| | |] eqn:E; cbn [bind] in H; try discriminate. injection H as <-.
+    cbn [ntp_val]. rewrite (dec_labels_bytes _ _ E). lia. }
+  assert (D : match c with
+              | 1 => let* (a, r) := rd_n 16 d in let* _ := fin_empty r in Ok (NSrv a)
+              | 2 => let* (a, r) := rd_n 16 d in let* _ := fin_empty r in Ok (NMC a)
+              | 3 => let* l := dec_labels d in Ok (NFQDN l)
+              | _ => Ok (NGen c d)
+              end%N = Ok (NGen c d)).
+  { destruct c as [|[[|[]|]|[|[]|]|]]; try reflexivity; congruence. }
+  rewrite D in H. injection H as <-. cbn [ntp_val]. lia.
+Qed.
+
+Ltac container H NV OPTS :=
+  peel H; injection H as <-;
+  match goal with E : dec_tlvs _ _ = Ok ?os |- _ =>
+    destruct (no_v4_nested os) as (N1 & N2 & N3 & N4 & N5 & N6 & N7 & N8);
+    rewrite ?N1, ?N2, ?N3, ?N4, ?N5, ?N6, ?N7, ?N8 in NV;
+    destruct (OPTS _ _ E NV) as [LO SO];
+    destruct (enc_val_nested os) as (T1 & T2 & T3 & T4 & T5 & T6 & T7 & T8);
+    destruct (shorts_nested os) as (S1 & S2 & S3 & S4 & S5 & S6 & S7 & S8);
+    lens;
+    match goal with |- length (enc_val ?o) <= length ?data /\ _ =>
+      assert (L : length (enc_val o) <= length data)
+        by (rewrite ?T1, ?T2, ?T3, ?T4, ?T5, ?T6, ?T7, ?T8; cbv zeta;
+            repeat match goal with |- context [match ?pre with Some _ => _ | None => _ end] => destruct pre as [[? ?]|] end;
+            len_simpl; lia);
+      split; [exact L | intros SD; rewrite ?S1, ?S2, ?S3, ?S4, ?S5, ?S6, ?S7, ?S8; split; [exact (short_le _ _ L SD) | exact SO]]
+    end
+  end.
+
+Ltac leaf L :=
+  match goal with |- length (enc_val ?o) <= length ?data /\ _ =>
+    split; [exact L | intros SD; cbn [shorts]; split; [exact (short_le _ _ L SD) | exact I]]
+  end.
+
+Theorem no_growth : forall f code data o, dec_opt f code data = Ok o -> no_v4 o ->
+  length (enc_val o) <= length data /\ (short data -> shorts o).
+Proof.
+  induction f as [|f IH]; intros code data o H NV; [discriminate|]. cbn [dec_opt] in H.
+  assert (OPTS : forall r os, dec_tlvs (dec_opt f) r = Ok os -> no_v4_list os ->
+            length (flat_map (fun x => tlv (opt_code x) (enc_val x)) os) <= length r /\ shorts_list os).
+  { intros r os Hr NVs. unfold dec_tlvs in Hr.
+    destruct (tlv_loop_lengths (dec_opt f) opt_code enc_val no_v4 shorts) with (f := Datatypes.S (length r)) (b := r) (vals := os) as [A B].
+    - intros c d v _ Sd Hv Nv. destruct (IH c d v Hv Nv) as [L S]. split; [exact L | exact (S Sd)].
+    - exact Hr.
+    - apply no_v4_list_Forall. exact NVs.
+    - split; [exact A | apply shorts_list_Forall; exact B]. }
+  destruct (classify code) eqn:K.
+  all: try (peel H; injection H as <-; lens;
+            match goal with |- length (enc_val ?o) <= _ /\ _ =>
+              assert (L : length (enc_val o) <= length data) by (len_simpl; lia);
+              split; [exact L | intros SD; cbn [shorts]; split; [exact (short_le _ _ L SD) | exact I]]
+            end).
+  - (* client id *)
+    peel H. injection H as <-. match goal with E : dec_duid _ = Ok _ |- _ => pose proof (dec_duid_length _ _ E) as L end. leaf L.
+  - peel H. injection H as <-. match goal with E : dec_duid _ = Ok _ |- _ => pose proof (dec_duid_length _ _ E) as L end. leaf L.
+  - container H NV OPTS.
+  - container H NV OPTS.
+  - container H NV OPTS.
+  - (* ORO *)
+    peel H. injection H as <-.
+    match goal with E : many_u16 _ = Ok ?cs |- _ => pose proof (many_u16_length _ _ E); pose proof (dedup_add_length cs []) end.
+    assert (L : length (enc_val (OORO (dedup_add [] a))) <= length data) by (len_simpl; cbn [length] in *; lia). leaf L.
+  - (* relay message *)
+    destruct (dec_msg_with _ data) as [m| | |] eqn:E; cbn [bind] in H; try discriminate.
+    injection H as <-. unfold dec_msg_with in E.
+    peel E; injection E as <-;
+      match goal with E' : dec_tlvs _ _ = Ok ?os |- _ =>
+        destruct (no_v4_nested os) as (N1 & N2 & N3 & N4 & N5 & N6 & N7 & N8);
+        rewrite ?N4, ?N5 in NV;
+        destruct (OPTS _ _ E' NV) as [LO SO];
+        destruct (enc_val_nested os) as (T1 & T2 & T3 & T4 & T5 & T6 & T7 & T8);
+        destruct (shorts_nested os) as (S1 & S2 & S3 & S4 & S5 & S6 & S7 & S8);
+        lens;
+        match goal with |- length (enc_val ?o) <= length ?data /\ _ =>
+          assert (L : length (enc_val o) <= length data) by (rewrite ?T4, ?T5; cbv zeta; len_simpl; lia);
+          split; [exact L | intros SD; rewrite ?S4, ?S5; split; [exact (short_le _ _ L SD) | exact SO]]
+        end
+      end.
+  - (* user class *)
+    peel H. injection H as <-.
+    match goal with E : many_len16 _ _ = Ok _ |- _ => pose proof (many_len16_length _ _ _ E) as L0 end.
+    match goal with |- length (enc_val ?o) <= length ?d /\ _ => assert (L : length (enc_val o) <= length d) by (cbn [enc_val]; lia) end.
+    leaf L.
+  - (* vendor class *)
+    peel H. injection H as <-.
+    match goal with E : many_len16 _ _ = Ok _ |- _ => pose proof (many_len16_length _ _ _ E) as L0 end. lens.
+    match goal with |- length (enc_val ?o) <= _ /\ _ => assert (L : length (enc_val o) <= length data) by (len_simpl; lia) end.
+    leaf L.
+  - (* vendor options *)
+    peel H. injection H as <-. lens.
+    assert (HP : forall c d (v : N * bytes), u16 c -> short d -> Ok (c, d) = Ok v -> True -> length (snd v) <= length d /\ True)
+      by (intros c d v _ _ [= <-] _; split; [cbn; lia | exact I]).
+    match goal with E : dec_tlvs _ _ = Ok ?subs |- _ => unfold dec_tlvs in E;
+      destruct (tlv_loop_lengths _ fst snd (fun _ => True) (fun _ => True) HP _ _ _ E) as [A _];
+      [clear; induction subs; constructor; auto |] end.
+    match goal with |- length (enc_val ?o) <= _ /\ _ => assert (L : length (enc_val o) <= length data) by (len_simpl; lia) end.
+    leaf L.
+  - (* DNS *)
+    peel H. injection H as <-.
+    match goal with E : many_ip16 _ _ = Ok _ |- _ => pose proof (many_ip16_length _ _ _ E) as L0 end.
+    match goal with |- length (enc_val ?o) <= _ /\ _ => assert (L : length (enc_val o) <= length data) by (cbn [enc_val]; lia) end.
+    leaf L.
+  - (* domain list *)
+    peel H. injection H as <-.
+    match goal with E : dec_labels _ = Ok _ |- _ => pose proof (dec_labels_bytes _ _ E) as L0 end.
+    match goal with |- length (enc_val ?o) <= _ /\ _ => assert (L : length (enc_val o) <= length data) by (cbn [enc_val]; rewrite L0; lia) end.
+    leaf L.
+  - container H NV OPTS.
+  - container H NV OPTS.
+  - (* FQDN *)
+    peel H. injection H as <-.
+    match goal with E : dec_labels _ = Ok _ |- _ => pose proof (dec_labels_bytes _ _ E) as L0 end. lens.
+    match goal with |- length (enc_val ?o) <= _ /\ _ => assert (L : length (enc_val o) <= length data) by (cbn [enc_val app length]; rewrite L0; lia) end.
+    leaf L.
+  - (* NTP *)
+    peel H. injection H as <-.
+    assert (HP : forall c d v, u16 c -> short d -> dec_ntpsub c d = Ok v -> True ->
+                   length (ntp_val v) <= length d /\ enc_ntpsub v = tlv (ntp_code v) (ntp_val v))
+      by (intros c d v Hc Hd Hv _; destruct (dec_ntpsub_length c d v Hc Hd Hv); split; assumption).
+    match goal with E : dec_tlvs _ _ = Ok ?subs |- _ => unfold dec_tlvs in E;
+      destruct (tlv_loop_lengths _ ntp_code ntp_val (fun _ => True) _ HP _ _ _ E) as [A B];
+      [clear; induction subs; constructor; auto |] end.
+    match goal with |- length (enc_val (ONTP ?subs)) <= _ /\ _ =>
+      assert (EQ : flat_map enc_ntpsub subs = flat_map (fun x => tlv (ntp_code x) (ntp_val x)) subs)
+        by (clear - B; induction B as [|s r Hs F IHF]; [reflexivity | cbn [flat_map]; rewrite Hs, IHF; reflexivity]);
+      assert (L : length (enc_val (ONTP subs)) <= length data) by (cbn [enc_val]; rewrite EQ; exact A)
+    end.
+    leaf L.
+  - (* boot parameters *)
+    peel H. injection H as <-.
+    match goal with E : many_len16 _ _ = Ok ?ps |- _ => pose proof (many_len16_length _ _ _ E) as L0; pose proof (many_len16_short _ _ _ E) as SH end.
+    match goal with |- length (enc_val (OBootParam ?ps)) <= _ /\ _ =>
+      assert (EQ : flat_map (fun p => if (65536 <=? N.of_nat (length p))%N then [] else len16 p ++ p) ps = flat_map (fun c => len16 c ++ c) ps)
+        by (clear - SH; induction SH as [|p r Hp F IHF]; [reflexivity | cbn [flat_map]; rewrite IHF;
+            unfold short in Hp; destruct (65536 <=? N.of_nat (length p))%N eqn:C; [apply N.leb_le in C; lia | reflexivity]]);
+      assert (L : length (enc_val (OBootParam ps)) <= length data) by (cbn [enc_val]; rewrite EQ; lia)
+    end.
+    leaf L.
+  - (* architectures *)
+    peel H. injection H as <-.
+    match goal with E : many_u16 _ = Ok ?cs |- _ => pose proof (many_u16_length _ _ E) end.
+    match goal with |- length (enc_val ?o) <= length ?d /\ _ => assert (L : length (enc_val o) <= length d) by (len_simpl; cbn [length] in *; lia) end.
+    leaf L.
+  - (* DHCPv4: excluded *)
+    peel H. injection H as <-. destruct NV.
+  - (* DHCP4o6 *)
+    peel H. injection H as <-.
+    match goal with E : many_ip16 _ _ = Ok _ |- _ => pose proof (many_ip16_length _ _ _ E) as L0 end.
+    match goal with |- length (enc_val ?o) <= _ /\ _ => assert (L : length (enc_val o) <= length data) by (cbn [enc_val]; lia) end.
+    leaf L.
+  - container H NV OPTS.
+  - (* 4RD map rule *)
+    peel H. injection H as <-. lens.
+    match goal with Hp : length ?p4 = 4 |- length (enc_val (O4RDMap ?a1 ?a2 ?a3 ?a4 ?p4 ?p6)) <= _ /\ _ =>
+      assert (L : length (enc_val (O4RDMap a1 a2 a3 a4 p4 p6)) <= length data)
+        by (cbn [enc_val]; rewrite (to4_len4 _ Hp); len_simpl; cbn [length] in *; lia) end.
+    leaf L.
+Qed.
+
+Lemma dec_msg_shorts b m : dec_msg b = Ok m -> no_v4_msg m -> shorts_msg m.
+Proof.
+  unfold dec_msg, dec_msg_with, dec_opts. intros H NV.
+  assert (OPTS : forall r os, dec_tlvs (dec_opt (Datatypes.S (length b))) r = Ok os -> no_v4_list os -> shorts_list os).
+  { intros r os Hr NVs. unfold dec_tlvs in Hr.
+    assert (HP : forall c d v, u16 c -> short d -> dec_opt (Datatypes.S (length b)) c d = Ok v -> no_v4 v ->
+                   length (enc_val v) <= length d /\ shorts v).
+    { intros c d v _ Sd Hv Nv. destruct (no_growth _ c d v Hv Nv) as [L S]. split; [exact L | exact (S Sd)]. }
+    destruct (tlv_loop_lengths _ opt_code enc_val no_v4 shorts HP _ _ _ Hr (no_v4_list_Forall _ NVs)) as [_ B].
+    apply shorts_list_Forall. exact B. }
+  peel H; injection H as <-; cbn [shorts_msg no_v4_msg] in *;
+    match goal with E : dec_tlvs _ _ = Ok ?os |- _ => exact (OPTS _ _ E NV) end.
+Qed.
+
+(** for messages that embed no DHCPv4 message the fixpoint holds unconditionally *)
+Theorem fixpoint6_no_v4 b m : dec_msg b = Ok m -> no_v4_msg m ->
+  exists m2, dec_msg (enc_msg m) = Ok m2 /\ enc_msg m2 = enc_msg m /\ m2 = canon_msg m.
+Proof. intros H NV. apply (fixpoint6 b m H). eapply dec_msg_shorts; eauto. Qed.
+
+(** and re-encoding such a message never produces more octets than were received *)
+Theorem reencode_no_longer b m : dec_msg b = Ok m -> no_v4_msg m -> length (enc_msg m) <= length b.
+Proof.
+  unfold dec_msg, dec_msg_with, dec_opts. intros H NV.
+  assert (OPTS : forall r os, dec_tlvs (dec_opt (Datatypes.S (length b))) r = Ok os -> no_v4_list os ->
+            length (enc_opts os) <= length r).
+  { intros r os Hr NVs. unfold dec_tlvs in Hr.
+    assert (HP : forall c d v, u16 c -> short d -> dec_opt (Datatypes.S (length b)) c d = Ok v -> no_v4 v ->
+                   length (enc_val v) <= length d /\ True).
+    { intros c d v _ Sd Hv Nv. destruct (no_growth _ c d v Hv Nv) as [L _]. split; [exact L | exact I]. }
+    destruct (tlv_loop_lengths _ opt_code enc_val no_v4 (fun _ => True) HP _ _ _ Hr (no_v4_list_Forall _ NVs)) as [A _].
+    exact A. }
+  peel H; injection H as <-; cbn [no_v4_msg] in *;
+    match goal with E : dec_tlvs _ _ = Ok ?os |- _ => pose proof (OPTS _ _ E NV) end; lens;
+    cbn [enc_msg]; len_simpl; lia.
+Qed.
